@@ -101,6 +101,7 @@ class StageRecorder:
         self.solve_calls = []     # (major_sol, [MinorSolution], [raw scores])
         self.minor_kwargs = None
         self.coverage = None      # the Coverage object handed to the structure stage
+        self.gene = None
 
     def __enter__(self):
         import aldy.cn, aldy.major, aldy.minor
@@ -111,6 +112,7 @@ class StageRecorder:
 
         def estimate_cn(*a, **k):
             rec.coverage = a[2] if len(a) > 2 else k.get("coverage")
+            rec.gene = a[0] if a else k.get("gene")
             r = o_cn(*a, **k)
             if rec.force_empty == "cn":
                 r = []
